@@ -184,7 +184,7 @@ func (in *Interp) runRegion(fr *Frame, blk, prev, stop *ssa.BasicBlock, phisDone
 				}
 				continue
 			}
-			if (fr.info.prune[blk] && in.loopDepthVisits(fr, blk) >= in.cfg.PruneFrom) || in.pruneAll {
+			if (fr.info.prune[blk] && in.loopDepthVisits(fr, blk) >= in.cfg.PruneFrom) || in.pruneAll || in.cfg.PruneAll {
 				ft = in.feasible(c)
 				if ft {
 					ff = in.feasible(in.ts.Not(c))
